@@ -29,7 +29,8 @@ def P():
 # ---------------------------------------------------------------------------
 # object pool and operations
 # ---------------------------------------------------------------------------
-MAKERS = ['scalar3', 'scalar3_m', 'scalar3_d', 'vector23', 'bool3', 'scalar0', 'pair3_d', 'matrix2']
+MAKERS = ['scalar3', 'scalar3_m', 'scalar3_d', 'vector23', 'bool3', 'scalar0', 'pair3_d', 'matrix2', 'scalar0_zero',
+           'scalar3_zero', 'vector0_zero']
 
 
 def make(kind, Pm):
@@ -54,13 +55,21 @@ def make(kind, Pm):
         x = Pm.Pair(np.arange(6.).reshape(3, 2))
         x.insert_deriv('t', Pm.Pair(np.ones((3, 2))))
         return x
+    # values at the poles of the sanitised operations (division by it, clip, mask_where(replace=...)): a shapeless
+    # read-only operand must not make them fail (seeded change C08-F)
+    if kind == 'scalar0_zero':
+        return Pm.Scalar(0.)
+    if kind == 'scalar3_zero':
+        return Pm.Scalar(A([0., 2., 0.]))
+    if kind == 'vector0_zero':
+        return Pm.Vector(A([0., 0., 0.]))
     if kind == 'matrix2':
         return Pm.Matrix(np.arange(8.).reshape(2, 2, 2) + 1., A([False, True]))
     raise ValueError(kind)
 
 
 CONSTANTS = ['Scalar.ONE', 'Scalar.PI', 'Vector3.ZAXIS', 'Boolean.TRUE', 'Matrix3.IDENTITY', 'Pair.ZEROS',
-             'Vector3.ONES', 'Quaternion.IDENTITY']
+             'Vector3.ONES', 'Quaternion.IDENTITY', 'Scalar.ZERO', 'Vector3.ZERO', 'Scalar.MASKED']
 
 # how -> (function, shares storage with source, result must be read-only if source is)
 DERIVE = {
@@ -135,6 +144,19 @@ NONMUT = {
     'pickle': lambda x, Pm: pickle.dumps(x), 'as_readonly_again': lambda x, Pm: x.clone().as_readonly(),
     'without_derivs': lambda x, Pm: x.without_derivs(), 'with_deriv': lambda x, Pm: x.with_deriv('z', x.wod),
     'norm': lambda x, Pm: x.norm() if len(x.numer) == 1 else abs(x) if not x.numer and not x.is_bool() else x,
+    # operations that neutralise poles with mask_where(..., replace=...) on the (possibly read-only) operand
+    'rdiv': lambda x, Pm: 3. / x if not x.numer and not x.is_bool() else x,
+    'div_by': lambda x, Pm: Pm.Scalar(3.) / x if not x.numer and not x.is_bool() else x,
+    'rmod': lambda x, Pm: 3. % x if not x.numer and not x.is_bool() else x,
+    'rfloordiv': lambda x, Pm: 3. // x if not x.numer and not x.is_bool() else x,
+    'reciprocal': lambda x, Pm: x.reciprocal() if not x.numer and not x.is_bool() else x,
+    'unit': lambda x, Pm: x.unit() if len(x.numer) == 1 else x,
+    'mask_where_replace': lambda x, Pm: x.mask_where(True, replace=x.wod) if not x.is_bool() else x,
+    'mask_where_eq0': lambda x, Pm: x.mask_where_eq(0, 1) if not x.numer and not x.is_bool() else x,
+    'clip': lambda x, Pm: x.clip(1., 2.) if not x.numer and not x.is_bool() and x.is_float() else x,
+    'clip_noremask': lambda x, Pm: x.clip(1., 2., remask=False) if not x.numer and not x.is_bool() and x.is_float() else x,
+    'sqrt_neg': lambda x, Pm: (x - 5.).sqrt() if not x.numer and not x.is_bool() else x,
+    'log': lambda x, Pm: x.log() if not x.numer and not x.is_bool() and x.units is None else x,
 }
 
 
